@@ -369,6 +369,30 @@ func init() {
 	})
 	reg("(*os.File).Sync", func(r *Run, g *G, a []Value) (Value, action) { return Iface{}, actDone })
 	reg("(*os.File).Close", func(r *Run, g *G, a []Value) (Value, action) { return Iface{}, actDone })
+	// errors.As (its body goes through reflectlite): target points at a variable of a concrete type T; true and
+	// *target = err when the dynamic type of err is T. Wrapped errors are not unwrapped (neither the repository
+	// nor its dependencies wrap the errors they test this way; a wrong "false" could only show in changed code,
+	// and every counterexample is replayed natively anyway).
+	reg("errors.As", func(r *Run, g *G, a []Value) (Value, action) {
+		ev, ok1 := a[0].(Iface)
+		tv, ok2 := a[1].(Iface)
+		if !ok1 || !ok2 || tv.t == nil {
+			engineFail("errors.As on %T, %T", a[0], a[1])
+		}
+		pt, ok := tv.t.Underlying().(*types.Pointer)
+		if !ok {
+			engineFail("errors.As target is not a pointer")
+		}
+		if _, isIface := pt.Elem().Underlying().(*types.Interface); isIface {
+			engineFail("errors.As with an interface target")
+		}
+		if ev.t != nil && types.Identical(ev.t, pt.Elem()) {
+			p := tv.v.(Ptr)
+			*p = copyVal(ev.v)
+			return true, actDone
+		}
+		return false, actDone
+	})
 	// ideal codec exposed to harness-level models (GOB wallet)
 	reg(vrt+"IdealEncode", func(r *Run, g *G, a []Value) (Value, action) {
 		iv := a[0].(Iface)
